@@ -415,6 +415,10 @@ func (c *DefaultCtx) Cookie(cookie *Cookie) {
 	fcookie.SetKey(removeNewLines(cookie.Name))
 	fcookie.SetValue(removeNewLines(cookie.Value))
 	fcookie.SetPath(removeNewLines(cookie.Path))
+	if p := fcookie.Path(); bytes.IndexByte(p, '\r') != -1 || bytes.IndexByte(p, '\n') != -1 {
+		// fasthttp percent-decodes the path: "%0d%0a" became a line break
+		fcookie.SetPath(removeNewLines(string(p)))
+	}
 	fcookie.SetDomain(removeNewLines(cookie.Domain))
 	// only set max age and expiry when SessionOnly is false
 	// i.e. cookie supposed to last beyond browser session
